@@ -91,6 +91,7 @@ class Interp(Ops):
         self.current_contract: Contract | None = None
         self.call_depth = 0
         self.await_count = 0
+        self.cur_frame = None
 
     # ================================================================== heap helpers
     def new_list(self, items) -> VList:
@@ -229,6 +230,10 @@ class Interp(Ops):
         raise Unsupported(f"membership in {container!r}")
 
     def concrete_key(self, v: V):
+        if isinstance(v, VEnum):
+            t = z3.simplify(v.term)
+            if z3.is_int_value(t):
+                return ("enum", v.cls, t.as_long())
         if isinstance(v, VStr):
             c = v.concrete()
             if c is not None:
@@ -437,7 +442,14 @@ class Interp(Ops):
     def e_BoolOp(self, e, fr):
         is_and = isinstance(e.op, ast.And)
         if self.spec_mode:
-            vals = [self.eval(x, fr) for x in e.values]
+            vals = []
+            for x in e.values:
+                v = self.eval(x, fr)
+                vals.append(v)
+                if isinstance(v, VBool):
+                    tv = z3.simplify(v.term)
+                    if (z3.is_true(tv) and not is_and) or (z3.is_false(tv) and is_and):
+                        return VBool(not is_and)     # decided by this operand: the rest is not evaluated
             if all(isinstance(v, VBool) for v in vals):
                 ts = [v.term for v in vals]
                 return VBool(z3.And(*ts) if is_and else z3.Or(*ts))
@@ -686,6 +698,12 @@ class Interp(Ops):
             return items[i]
         if isinstance(base, VDict):
             d = self.st.heap[(base.ref, "items")]
+            if isinstance(idx, VEnum) and not z3.is_int_value(z3.simplify(idx.term)):
+                # dispatch table keyed by enum members, looked up with a symbolic member: one path per member
+                for k in d:
+                    if isinstance(k, tuple) and k[0] == "enum" and k[1] == idx.cls and self.st.branch(idx.term == k[2]):
+                        return d[k]
+                raise_("KeyError", "enum member not in dict")
             k = self.concrete_key(idx)
             if k not in d:
                 raise_("KeyError", repr(k))
@@ -1115,6 +1133,7 @@ class Interp(Ops):
             self.exec_stmt(s, fr)
 
     def exec_stmt(self, s: ast.stmt, fr: Frame):
+        self.cur_frame = fr
         m = getattr(self, "s_" + type(s).__name__, None)
         if m is None:
             raise Unsupported(f"unsupported statement {type(s).__name__} at line {getattr(s, 'lineno', '?')}")
@@ -1126,8 +1145,7 @@ class Interp(Ops):
         if self.is_logger_call(s.value):
             return
         v = s.value
-        if isinstance(v, ast.ListComp) and len(v.generators) == 1 and not v.generators[0].ifs \
-                and any(isinstance(x, ast.Await) for x in ast.walk(v)):
+        if isinstance(v, ast.ListComp) and len(v.generators) == 1 and not v.generators[0].ifs:
             # `[await f(x) for x in xs]` as a statement: a loop whose result list is discarded
             it = self.eval(v.generators[0].iter, fr)
             try:
